@@ -117,6 +117,29 @@ def typed_values(xq, dtype, shape):
   return a, [Fraction(int(v)) for v in a.reshape(-1)]
 
 
+def recover_diag(y_ones, n):
+  """The rotation is linear: rot(x) = H·D·pad(x)/sqrt(d). From y = rot(ones of size n) (length d) the diagonal is
+  D[:n] = (H·(sqrt(d)·y))/d; entries n.. multiply the zero padding and are not observable (returned as +1).
+  Returns (signs or None, message): signs is a list of ±1 of length d when the recovered vector is a ±1 diagonal on
+  the first n entries and 0 on the padding (within float32 rounding), else None with what was found."""
+  y = np.asarray(y_ones, dtype=np.float64).reshape(-1)
+  d = y.shape[0]
+  if d < n or not is_pow2(d):
+    return None, f'rotated length {d} is not a power of two >= {n}'
+  v = fwht_ref_np(y * math.sqrt(d)) / d
+  r = np.rint(v)
+  if np.max(np.abs(v - r)) > 0.05:
+    i = int(np.argmax(np.abs(v - r)))
+    return None, f'H·(sqrt(d)·rot(ones)) / d has the non-integer entry {v[i]!r} at index {i}'
+  bad = [i for i in range(n) if abs(r[i]) != 1]
+  if bad:
+    return None, f'the diagonal recovered from rot(ones) has entry {int(r[bad[0]])} at index {bad[0]} (must be +1 or -1)'
+  if d > n and np.any(r[n:] != 0):
+    i = n + int(np.argmax(r[n:] != 0))
+    return None, f'rot(ones) has a component {int(r[i])} on the padding position {i}'
+  return [int(t) for t in r[:n]] + [1] * (d - n), ''
+
+
 def exc_class(e):
   n = type(e).__name__
   if n in ('ValueError', 'TypeError'):
@@ -136,7 +159,7 @@ def shape_size(shape):
 
 
 # ------------------------------------------------------------------------------------------------
-# parameter-tree specs (JSON):  ["leaf", shape, xspec] | ["dict", [[key, node], ...]] | ["list", [node, ...]]
+# parameter-tree specs (JSON):  ["same", i] (the same array object as the i-th leaf) | ["leaf", shape, xspec] | ["dict", [[key, node], ...]] | ["list", [node, ...]]
 #   | ["tuple", [node, ...]] | ["nt", typename, [node, ...]] (a namedtuple) | ["none"] (None: a node without leaves)
 
 import collections
@@ -149,21 +172,39 @@ LEAF_SHAPES = [[], [1], [2], [3], [5], [2, 3], [4], [3, 3], [8], [2, 2], [1, 7]]
 
 
 def spec_build(spec, mk):
-  """builds the Python container tree; `mk(leaf_spec)` makes the leaf object"""
-  t = spec[0]
-  if t == 'leaf':
-    return mk(spec)
-  if t == 'none':
-    return None
-  if t == 'dict':
-    return {k: spec_build(v, mk) for k, v in spec[1]}
-  if t == 'list':
-    return [spec_build(v, mk) for v in spec[1]]
-  if t == 'tuple':
-    return tuple(spec_build(v, mk) for v in spec[1])
-  if t == 'nt':
-    return NT_TYPES[spec[1]](*[spec_build(v, mk) for v in spec[2]])
-  raise ValueError(f'bad tree spec node {t}')
+  """builds the Python container tree; `mk(leaf_spec)` makes the leaf object (once per "leaf" node);
+  ["same", i] puts the SAME object as the i-th "leaf" node (spec order) at a further position (tied weights)"""
+  leaves = spec_all_leaves(spec)
+  objs = {id(l): mk(l) for l in leaves}
+
+  def go(sp):
+    t = sp[0]
+    if t == 'leaf':
+      return objs[id(sp)]
+    if t == 'same':
+      return objs[id(leaves[sp[1]])]
+    if t == 'none':
+      return None
+    if t == 'dict':
+      return {k: go(v) for k, v in sp[1]}
+    if t == 'list':
+      return [go(v) for v in sp[1]]
+    if t == 'tuple':
+      return tuple(go(v) for v in sp[1])
+    if t == 'nt':
+      return NT_TYPES[sp[1]](*[go(v) for v in sp[2]])
+    raise ValueError(f'bad tree spec node {t}')
+  return go(spec)
+
+
+def spec_valid(spec):
+  n = len(spec_all_leaves(spec))
+
+  def ok(sp):
+    if sp[0] == 'same':
+      return isinstance(sp[1], int) and 0 <= sp[1] < n
+    return all(ok(c) for c in spec_children(sp))
+  return ok(spec)
 
 
 def spec_children(spec):
@@ -197,7 +238,9 @@ def spec_all_leaves(spec):
 def spec_kinds(spec, depth=0, out=None):
   """container kinds with their depth (for the input-distribution histogram)"""
   out = set() if out is None else out
-  if spec[0] != 'leaf':
+  if spec[0] == 'same':
+    out.add('shared-leaf')
+  elif spec[0] != 'leaf':
     out.add(spec[0] + ('@root' if depth == 0 else ''))
     if not spec_children(spec) and spec[0] != 'none':
       out.add('empty-' + spec[0])
@@ -269,10 +312,14 @@ def gen_leaf(rng, shape=None, dtype=None):
 def gen_spec(rng, depth, budget):
   """random container tree over dict / list / tuple / namedtuple / None / empty containers.
   `budget` = one-element list with the remaining number of leaves."""
+  if len(budget) > 1 and budget[1] > 0 and rng.random() < 0.12:
+    return ['same', rng.randrange(budget[1])]
   if depth == 0 or budget[0] <= 0 or rng.random() < 0.25:
     if budget[0] <= 0:
       return rng.choice([['none'], ['dict', []], ['list', []], ['tuple', []]])
     budget[0] -= 1
+    if len(budget) > 1:
+      budget[1] += 1
     return gen_leaf(rng)
   t = rng.choice(['dict', 'list', 'tuple', 'tuple', 'nt', 'nt', 'dict', 'list', 'tuple', 'none-or-empty'])
   if t == 'none-or-empty':
@@ -308,6 +355,10 @@ def fixed_tree_specs(rng):
       ['nt', 'Wrap', [['nt', 'Conv', [L([2, 2]), L([2]), L([])]]]],
       ['list', [['tuple', []], ['tuple', [L([1])]], ['none'], L([2])]],
       ['tuple', [L([3])]],                                                                 # 1-tuple
+      # tied weights: the SAME array object at several leaf positions
+      ['list', [L([5]), L([3, 2]), ['same', 0]]],                                          # [b, w, b]
+      ['dict', [['embed', L([8, 4])], ['head', ['dict', [['b', L([4])], ['proj', ['same', 0]]]]]]],
+      ['tuple', [L([7]), ['same', 0], ['nt', 'Dense', [['same', 0], L([2])]]]],
   ]
 
 
@@ -315,13 +366,15 @@ class C18(core.Property):
   ID = 'C18'
   RULE = ('cases: wht (length 2^k, k=0..14, block size 2^1..2^11 explicit positional/keyword or defaulted, '
           'integer / dyadic / unit / float vectors, int8/uint8/int16/int32 inputs whose H x is exactly representable incl. int32 results beyond 2^24, plus invalid lengths and block sizes), rot (array shapes of '
-          'size >= 1 incl. 0-d, non-powers of two, multi-dimensional; size-0 rejection), tree (containers dict/list/tuple/namedtuple/None/empty, nested to depth 3, 0..6 leaves incl. 0-d, bare leaf); '
+          'size >= 1 incl. 0-d, non-powers of two, multi-dimensional, sizes with padded length 16384 = 128^2; full-range bool/uint/int8/int16 dtypes), tree (containers dict/list/tuple/namedtuple/None/empty, nested to depth 3, 0..6 leaves incl. 0-d, bare leaf, the same array object at several leaf positions), dsweep (rotation of ones for 180 (quick) / 2100 (thorough) keys: sign diagonal ±1, round trip, pairwise different); '
           'non-trivial = transform of a non-constant vector of length >= 4 whose result differs from the input, '
           'from the bit-reversed-order transform and from the input scaled; rotations: size >= 2 and x != 0; '
           'two child-process probes per run (x64: float64/int64 transforms and rotation round trips at 1e-12; classic threefry stream: rotation/tree round trips on non-power-of-two sizes); distinct by case digest')
-  TRUSTED = ['jax.random.rademacher / jax.random.split are deterministic functions of (key, shape) and give '
-             'entries ±1 (monitored on every case); "different keys draw different sign vectors" is an idealised-PRNG '
-             'assumption, monitored only on inputs with >= 64 non-zero entries (collision probability 2^-64)',
+  TRUSTED = ['the sign diagonal D of a key is NOT predicted by the harness: it is recovered from the implementation through the '
+             'public API (rotation of the all-ones array / tree with the same key), checked to be a ±1 diagonal that is the '
+             'same on repeated calls, and the model is run with that D; which pattern a key gives and how leaf keys are '
+             'derived are not fixed. "different keys give different rotations" is judged only on inputs with >= 64 '
+             'non-zero entries (collision probability 2^-64)',
              'XLA float32 einsum (inputs are small integers / dyadic rationals so the comparison is exact below 2^24; '
              'float inputs use the tolerance policy)',
              'the two 1/sqrt(d) factors are carried symbolically in the theorems (c*c*d = 1; instantiated with '
@@ -354,7 +407,20 @@ class C18(core.Property):
         ['mask', gen_leaf(rng, [5], 'bool')], ['w', gen_leaf(rng, [2, 3])],
         ['q', ['nt', 'Dense', [gen_leaf(rng, [7], 'int16'), gen_leaf(rng, [], 'uint16')]]]]]}
     for spec in fixed_tree_specs(rng):
-      yield {'kind': 'tree', 'spec': spec, 'key': rng.randrange(2 ** 31)}
+      yield {'kind': 'tree', 'spec': spec, 'key': rng.randrange(2 ** 31), 'key2': rng.randrange(2 ** 31)}
+    # padded length 16384 = 128^2: the only sizes below 2^20 whose schedule at the default block has two equal
+    # axes (sizes 8193..16384); one array and one tree leaf per run, more in the thorough tier
+    big_shapes = [[100, 100], [8193]] + ([[128, 128], [16384], [10000], [90, 100]] if tier == 'thorough' else [])
+    for shape in big_shapes:
+      c = self._rot_case(rng, shape)
+      yield {**c, 'dtype': 'float32', 'x': {'seed': rng.randrange(2 ** 31), 'n': shape_size(shape), 'mag': 8, 'kind': 'nonzero'}}
+    yield {'kind': 'tree', 'key': rng.randrange(2 ** 31), 'key2': rng.randrange(2 ** 31), 'spec': ['dict', [
+        ['a', gen_leaf(rng, [128, 128] if tier == 'thorough' else [96, 100], 'float32')], ['b', gen_leaf(rng, [100], 'float32')],
+        ['c', ['tuple', [gen_leaf(rng, [3000], 'float32'), gen_leaf(rng, [64], 'float32')]]]]]}
+    # the sign diagonal is ±1 for many keys on a long vector (a draw that is neither +1 nor -1 makes the rotation
+    # singular); also: different keys, different diagonals
+    yield {'kind': 'dsweep', 'n': 16384, 'keys': [rng.randrange(2 ** 31) for _ in range(120 if tier == 'quick' else 1500)]}
+    yield {'kind': 'dsweep', 'n': 1000, 'keys': [rng.randrange(2 ** 31) for _ in range(60 if tier == 'quick' else 600)]}
     # non-default JAX configurations run in child processes, started now and collected after the grid
     probes = [self._probe_case(rng, 'x64', tier), self._probe_case(rng, 'threefry0', tier)]
     yield {'kind': 'probe-start', 'probes': probes}
@@ -400,8 +466,8 @@ class C18(core.Property):
           shape = shape[:1]
         yield self._rot_case(rng, shape)
       elif t < 9:
-        yield {'kind': 'tree', 'spec': gen_spec(rng, rng.choice([1, 2, 2, 3]), [rng.choice([1, 2, 3, 4, 5])]),
-               'key': rng.randrange(2 ** 31)}
+        yield {'kind': 'tree', 'spec': gen_spec(rng, rng.choice([1, 2, 2, 3]), [rng.choice([1, 2, 3, 4, 5]), 0]),
+               'key': rng.randrange(2 ** 31), 'key2': rng.randrange(2 ** 31)}
       else:
         yield {'kind': 'rot', 'shape': rng.choice([[0], [2, 0]]), 'key': rng.randrange(2 ** 31), 'dtype': 'float32',
                'x': {'seed': 0, 'n': 0}}
@@ -505,6 +571,13 @@ class C18(core.Property):
             yield self._reshape(case, shape[:i] + [c] + shape[i + 1:])
       if case.get('dtype') != 'float32':
         yield {**case, 'dtype': 'float32'}
+    elif kind == 'dsweep':
+      ks = case['keys']
+      if len(ks) > 1:
+        yield {**case, 'keys': ks[:len(ks) // 2]}
+        yield {**case, 'keys': ks[len(ks) // 2:]}
+        for k in ks[:40]:
+          yield {**case, 'keys': [k]}
     elif kind == 'probe':
       items = case['items']
       if len(items) > 1:
@@ -518,6 +591,8 @@ class C18(core.Property):
       base = {k: v for k, v in case.items() if k not in ('struct', 'shapes', 'xs')}
       seen = set()
       for sp in spec_shrinks(spec):
+        if not spec_valid(sp):
+          continue
         d = core.case_digest(sp)
         if d not in seen:
           seen.add(d)
@@ -542,6 +617,8 @@ class C18(core.Property):
       return self._eval_rot(case, ctx)
     if kind == 'tree':
       return self._eval_tree(case, ctx)
+    if kind == 'dsweep':
+      return self._eval_dsweep(case, ctx)
     if kind == 'probe-start':
       for pc in case['probes']:
         self._probe_start(pc)
@@ -685,10 +762,11 @@ class C18(core.Property):
       ans = ctx.drv.ask1('c18.fwht', max(eff_small, 0), xq)
       detail['model'] = ans if ans[0] == 'err' else ['ok', [str(v) for v in ans[1][:16]]]
       if ans[0] == 'err':
-        if err is None:
-          corr.append(f'model rejects with {ans[1]}, implementation returned a value')
-        elif exc_class(err) != ans[1] and not (valid and problems):
-          corr.append(f'model rejects with {ans[1]}, implementation raised {type(err).__name__}')
+        # inputs the model rejects are outside the property (invalid block size / length, or more axes than the
+        # code supports): which exception is raised — or whether a wider implementation accepts them — is not fixed
+        if valid:
+          corr.append(f'model rejects a valid input with {ans[1]}')
+        ctx.count('wht_out_of_domain_' + ('raised' if err is not None else 'accepted'))
       else:
         if err is not None:
           corr.append(f'model returns a value, implementation raised {type(err).__name__}')
@@ -707,9 +785,12 @@ class C18(core.Property):
       ctx.count('model_fwht')
     else:
       ctx.count('model_skipped_cost')
-    if not valid and err is None and eff_small >= 2 and is_pow2(n) and is_pow2(eff_small):
-      # more than 8 axes must be rejected by the documented guard
-      corr.append('implementation accepted a schedule with more than 8 axes')
+    if not valid and err is None and eff_small >= 2 and is_pow2(n) and is_pow2(eff_small) and not is_float:
+      # more axes than the unchanged code supports, but accepted: then the value must still be H x
+      ref = fwht_ref(xq) if n <= 4096 else list(fwht_ref_np(np.array([float(v) for v in xq], dtype=np.float64)))
+      if y.shape != (n,) or any(Fraction(float(a)) != Fraction(b) for a, b in zip(y, ref)):
+        problems.append(f'transform(len {n}, small_n={small}) is accepted but does not return the Sylvester product')
+        key = key or 'C18/wht/value'
 
     nontriv = False
     if valid and n >= 4 and want is not None and err is None:
@@ -762,14 +843,6 @@ class C18(core.Property):
 
   # ---- rotation -------------------------------------------------------------------------------
 
-  def _signs(self, key, d):
-    """Rademacher signs the code draws for (key, [d]); monitors the trusted facts about the PRNG."""
-    jax = self.jax
-    a = np.asarray(jax.random.rademacher(key, (d,)))
-    b = np.asarray(jax.random.rademacher(key, (d,)))
-    ok = a.shape == (d,) and np.array_equal(a, b) and bool(np.all(np.abs(a) == 1))
-    return [int(v) for v in a], ok
-
   def _eval_rot(self, case, ctx):
     jax, jnp, wh = self.jax, self.jnp, self.wh
     shape = case['shape']
@@ -792,16 +865,12 @@ class C18(core.Property):
       if size >= 1:
         problems.append(f'structured_rotation(shape {tuple(shape)}) raised {type(e).__name__}: {str(e)[:120]!r}')
         fkey = 'C18/rot/rotation-raises-' + type(e).__name__
-      else:
-        ans = ctx.drv.ask1('c18.rot', [], [])
-        if ans[0] != 'err' or ans[1] != exc_class(e):
-          corr.append(f'size-0 input: implementation raised {type(e).__name__}, model {ans}')
+      # size 0 is outside the property ("total size >= 1"): any exception class is acceptable
       return Outcome(oracle_fail='; '.join(problems) or None, corr_fail='; '.join(corr) or None, nontrivial=False,
                      tags=(f'rot:size0' if size == 0 else 'rot:raise',), key=fkey,
                      detail={'impl_error': type(e).__name__})
     if size == 0:
-      return Outcome(corr_fail='structured_rotation accepted a size-0 array; model rejects (math.log2(0))',
-                     nontrivial=False, tags=('rot:size0',))
+      return Outcome(nontrivial=False, tags=('rot:size0-accepted',))
     d = 1 << (size - 1).bit_length()
     sumsq = sum(float(v) ** 2 for v in xq)
     scale1 = sum(abs(float(v)) for v in xq)
@@ -813,13 +882,7 @@ class C18(core.Property):
     if abs(ny - sumsq) > 1e-4 * sumsq + 1e-6:
       problems.append(f'norm^2 of the rotation {ny!r} != norm^2 of the input {sumsq!r}')
       fkey = fkey or 'C18/rot/norm'
-    try:
-      if [int(v) for v in np.asarray(sh)] != list(shape):
-        problems.append(f'recorded shape {np.asarray(sh).tolist()} != {shape}')
-        fkey = fkey or 'C18/rot/shape-record'
-    except Exception:   # pylint: disable=broad-except
-      problems.append('recorded shape is not an integer vector')
-      fkey = fkey or 'C18/rot/shape-record'
+    # the second return value is a token for the inverse; its format is not part of the property
     # ---- inverse
     try:
       z = np.array(wh.inverse_structured_rotation(yj, key, sh), copy=True)
@@ -862,42 +925,140 @@ class C18(core.Property):
         problems.append(f'keys {case["key"]} and {case["key2"]} give the same rotation of an input with {nonzero} non-zero entries')
         fkey = fkey or 'C18/rot/keys-collide'
       ctx.count('different_key_checks')
-    # ---- model
-    signs, ok = self._signs(key, d)
-    ctx.count('rademacher_monitor')
-    if not ok:
-      corr.append('jax.random.rademacher is not a deterministic ±1 vector for (key, shape)')
-    ans = ctx.drv.ask([line('c18.rot', signs, xq), line('c18.ceillog2', size)])
-    if 2 ** ans[1] != d:
-      corr.append(f'model pads to 2^{ans[1]}, expected {d}')
-    if ans[0][0] != 'ok':
-      corr.append(f'model rotU rejects: {ans[0]}')
-    else:
-      my = ans[0][1]
+    # ---- the sign diagonal D of this key, recovered from the implementation through the public API
+    # (which pattern a key gives is not fixed by the property; that it is a ±1 diagonal, a function of the key
+    # only, and that rot(x) = H·D·pad(x)/sqrt(d), inverse(rot(x)) = x, is)
+    signs = None
+    ones = jnp.asarray(np.ones(shape, dtype=dtype))
+    try:
+      o1j, osh = wh.structured_rotation(ones, key)
+      o1 = np.array(o1j, copy=True)
+      o2 = np.array(wh.structured_rotation(ones, key)[0], copy=True)
+      if not np.array_equal(o1, o2):
+        problems.append(f'two rotations of the same array (ones{tuple(shape)}) with the same key {case["key"]} differ')
+        fkey = fkey or 'C18/rot/not-a-function-of-key'
+      n1 = float(np.sum(o1.astype(np.float64) ** 2))
+      if abs(n1 - size) > 1e-4 * size + 1e-6:
+        problems.append(f'norm^2 of the rotation of ones{tuple(shape)} with key {case["key"]} is {n1!r}, not {size}')
+        fkey = fkey or 'C18/rot/norm'
+      oz = np.asarray(wh.inverse_structured_rotation(o1j, key, osh)).reshape(-1)
+      badz = [i for i in range(min(size, oz.shape[0])) if abs(float(oz[i]) - 1.0) > 1e-5 * size + 1e-4]
+      if oz.shape[0] != size or badz:
+        i0 = badz[0] if badz else 0
+        problems.append(f'inverse rotation does not restore ones{tuple(shape)} with key {case["key"]}: entry {i0} is '
+                        f'{float(oz[i0]) if oz.shape[0] > i0 else None!r}')
+        fkey = fkey or 'C18/rot/inverse-value'
+      signs, why = recover_diag(o1, size)
+      if signs is None:
+        corr.append(f'key {case["key"]}: {why}')
+    except Exception as e:   # pylint: disable=broad-except
+      problems.append(f'rotation / inverse of ones{tuple(shape)} raised {type(e).__name__}: {str(e)[:100]!r}')
+      fkey = fkey or 'C18/rot/rotation-raises-' + type(e).__name__
+    ctx.count('diag_recovered' if signs is not None else 'diag_not_recovered')
+    # ---- model: rot(x) = H·D·pad(x) (unnormalised), with THAT D
+    if signs is not None and len(signs) == d and y.shape == (d,):
       rt = math.sqrt(d)
-      if y.shape == (len(my),):
-        bad = [i for i in range(d) if not close(float(y[i]) * rt, my[i], scale1)]
-        if bad:
-          corr.append(f'rotation entry {bad[0]}: sqrt(d)*impl {float(y[bad[0]]) * rt} vs model {my[bad[0]]}')
+      shape_model = ctx.drv.ask1('c18.shape', d, 128) if d > 1 else []
+      limit = MODEL_COST_LIMIT if ctx.tier == 'thorough' else MODEL_COST_LIMIT_QUICK
+      if d * max(sum(shape_model), 1) <= limit:
+        ans = ctx.drv.ask([line('c18.rot', signs, xq), line('c18.ceillog2', size)])
+        if 2 ** ans[1] != d:
+          corr.append(f'model pads to 2^{ans[1]}, expected {d}')
+        if ans[0][0] != 'ok':
+          corr.append(f'model rotU rejects: {ans[0]}')
+        else:
+          my = ans[0][1]
+          bad = [i for i in range(d) if not close(float(y[i]) * rt, my[i], scale1)]
+          if bad:
+            corr.append(f'rotation entry {bad[0]}: sqrt(d)*impl {float(y[bad[0]]) * rt} vs H·D·pad(x) = {my[bad[0]]} '
+                        f'with the diagonal D recovered from rot(ones) (D is not independent of x, or the rotation is not H·D·pad)')
+          if sum(v * v for v in my) != d * sum(v * v for v in xq):
+            corr.append('model violates C18_norm_unnormalised')
+          inv = ctx.drv.ask1('c18.invrot', signs, my, shape)
+          if inv[0] != 'ok' or inv[1] != [d * v for v in xq]:
+            corr.append('model violates C18_inverse_unnormalised')
+          elif z is not None and z.shape == tuple(shape):
+            zf = z.reshape(-1)
+            bad = [i for i in range(size) if not close(float(zf[i]) * d, inv[1][i], scale1 * d)]
+            if bad:
+              corr.append(f'inverse entry {bad[0]}: d*impl {float(zf[bad[0]]) * d} vs model {inv[1][bad[0]]}')
+          detail['model_rot'] = [str(v) for v in my[:8]]
+          if d <= 64:
+            # C18_diag_recover in the model: H·rotU signs ones = d·(signs on the first `size` entries, 0 on the padding)
+            mo = ctx.drv.ask1('c18.rot', signs, [1] * size)
+            back = ctx.drv.ask1('c18.hmul', ilog2(d), mo[1]) if mo[0] == 'ok' else None
+            if back != [d * t for t in signs[:size]] + [0] * (d - size):
+              corr.append('model violates C18_diag_recover')
+            ctx.count('diag_recover_model_checks')
+        ctx.count('rot_model_comparisons')
       else:
-        corr.append(f'rotation length {y.shape} vs model {len(my)}')
-      if sum(v * v for v in my) != d * sum(v * v for v in xq):
-        corr.append('model violates C18_norm_unnormalised')
-      inv = ctx.drv.ask1('c18.invrot', signs, my, shape)
-      if inv[0] != 'ok' or inv[1] != [d * v for v in xq]:
-        corr.append('model violates C18_inverse_unnormalised')
-      elif z is not None and z.shape == tuple(shape):
-        zf = z.reshape(-1)
-        bad = [i for i in range(size) if not close(float(zf[i]) * d, inv[1][i], scale1 * d)]
+        # too long for the exact model in this tier: the same identity against the float64 reference butterflies
+        padded = np.array([float(v) for v in xq] + [0.0] * (d - size)) * np.array(signs, dtype=np.float64)
+        want = fwht_ref_np(padded)
+        bad = [i for i in range(d) if not close(float(y[i]) * rt, want[i], scale1)]
         if bad:
-          corr.append(f'inverse entry {bad[0]}: d*impl {float(zf[bad[0]]) * d} vs model {inv[1][bad[0]]}')
-      detail['model_rot'] = [str(v) for v in my[:8]]
+          corr.append(f'rotation entry {bad[0]}: sqrt(d)*impl {float(y[bad[0]]) * rt} vs H·D·pad(x) = {want[bad[0]]} '
+                      f'(reference butterflies, D recovered from rot(ones))')
+        ctx.count('rot_reference_comparisons')
+    elif y.shape != (d,):
+      pass   # already reported above
     detail.update({'impl_rot': [float(v) for v in y[:8]], 'impl_inv': None if z is None else [float(v) for v in z.reshape(-1)[:8]],
-                   'signs': signs[:8], 'd': d})
+                   'signs': None if signs is None else signs[:8], 'd': d})
     tags = (f'rot:ndim={len(shape)}', f'rot:pow2={is_pow2(size)}', f'rot:d={d if d <= 8 else ("<=64" if d <= 64 else ">64")}',
             f'rot:dtype={dtype}')
     return Outcome(oracle_fail='; '.join(problems[:3]) or None, corr_fail='; '.join(corr[:3]) or None,
                    nontrivial=size >= 2 and nonzero >= 1, tags=tags, key=fkey, detail=detail)
+
+  def _eval_dsweep(self, case, ctx):
+    """For many keys: the rotation of ones(n) determines the sign diagonal D (recover_diag). Property-level
+    statements judged on the real outputs: inverse(rot(ones)) = ones for every key, different keys give different
+    rotations. Model-level (correspondence): D is a ±1 diagonal."""
+    jax, jnp, wh = self.jax, self.jnp, self.wh
+    n = case['n']
+    ones = jnp.ones((n,), dtype=jnp.float32)
+    problems, corr, fkey = [], [], None
+    seen = {}
+    for k in case['keys']:
+      key = jax.random.PRNGKey(k)
+      try:
+        yj, sh = wh.structured_rotation(ones, key)
+        y = np.array(yj, copy=True)
+      except Exception as e:   # pylint: disable=broad-except
+        problems.append(f'structured_rotation(ones({n}), PRNGKey({k})) raised {type(e).__name__}')
+        fkey = fkey or 'C18/rot/rotation-raises-' + type(e).__name__
+        break
+      sg, why = recover_diag(y, n)
+      nrm = float(np.sum(y.astype(np.float64) ** 2))
+      if sg is None or abs(nrm - n) > 1e-4 * n:
+        # confirm on the property itself: norm and round trip of this concrete input
+        if abs(nrm - n) > 1e-4 * n:
+          problems.append(f'PRNGKey({k}): norm^2 of the rotation of ones({n}) is {nrm!r}')
+          fkey = fkey or 'C18/rot/norm'
+        try:
+          z = np.asarray(wh.inverse_structured_rotation(yj, key, sh)).reshape(-1)
+          bad = [i for i in range(min(n, z.shape[0])) if abs(float(z[i]) - 1.0) > 1e-5 * n + 1e-4]
+          if z.shape[0] != n or bad:
+            i0 = bad[0] if bad else 0
+            problems.append(f'PRNGKey({k}): inverse rotation does not restore ones({n}): entry {i0} comes back as '
+                            f'{float(z[i0]) if z.shape[0] > i0 else None!r} ({why})')
+            fkey = fkey or 'C18/rot/inverse-value'
+        except Exception as e:   # pylint: disable=broad-except
+          problems.append(f'PRNGKey({k}): inverse rotation of rot(ones({n})) raised {type(e).__name__}')
+          fkey = fkey or 'C18/rot/inverse-raises-' + type(e).__name__
+        if sg is None:
+          corr.append(f'PRNGKey({k}), n={n}: {why}')
+      else:
+        t = bytes(bytearray((v + 1) // 2 for v in sg[:n]))
+        if t in seen and seen[t] != k and n >= 64:
+          problems.append(f'PRNGKey({seen[t]}) and PRNGKey({k}) give the same rotation of ones({n})')
+          fkey = fkey or 'C18/rot/keys-collide'
+        seen.setdefault(t, k)
+      if len(problems) >= 3:
+        break
+    ctx.count('dsweep_keys', len(case['keys']))
+    ctx.count('dsweep_signs', len(case['keys']) * n)
+    return Outcome(oracle_fail='; '.join(problems[:3]) or None, corr_fail='; '.join(corr[:3]) or None,
+                   nontrivial=True, tags=(f'dsweep:n={n}',), key=fkey, detail={'keys': len(case['keys'])})
 
   # ---- child-process probes (non-default JAX configurations) ---------------------------------------
 
@@ -1014,8 +1175,6 @@ class C18(core.Property):
         ny = sum(Fraction(v) ** 2 for v in r['y'])
         if not norm_ok(float(ny), float(nx)):
           fail(f'rotation of {what}: norm^2 {float(nx)!r} became {float(ny)!r}', 'rot-norm')
-        if r['rec_shape'] != list(sh):
-          fail(f'rotation of {what}: recorded shape {r["rec_shape"]}', 'rot-shape-record')
         if 'inv_err' in r:
           fail(f'inverse rotation of {what} raised {r["inv_err"]}', 'rot-inverse-raises')
         elif r['z_shape'] != list(sh):
@@ -1028,14 +1187,17 @@ class C18(core.Property):
                  f'({len(bad)} of {len(xs)} entries)', 'rot-inverse-value')
         if x64 and (r['y_dtype'] != 'float64' or r.get('z_dtype', 'float64') != 'float64'):
           corr.append(f'[{mode}] float64 rotation returned {r["y_dtype"]}/{r.get("z_dtype")}')
-        # model with the signs the child drew for (key, [d]) under the same configuration
-        d = len(r['signs'])
-        if len(r['y']) == d and set(r['signs']) <= {1, -1}:
-          ans = ctx.drv.ask1('c18.rot', r['signs'], [Fraction(v) for v in xs])
+        # model with the sign diagonal recovered from the child's rot(ones) under the same configuration
+        sg, why = recover_diag(np.array(r['y_ones'], dtype=np.float64), len(xs)) if r.get('y_ones') is not None else (None, 'no rot(ones)')
+        if sg is None:
+          corr.append(f'[{mode}] rotation of {what}: {why}')
+        elif len(r['y']) == len(sg):
+          d = len(sg)
+          ans = ctx.drv.ask1('c18.rot', sg, [Fraction(v) for v in xs])
           if ans[0] == 'ok' and any(not close(a * math.sqrt(d), b, sc) for a, b in zip(r['y'], ans[1])):
-            corr.append(f'[{mode}] rotation of {what} differs from the model with rademacher(key, [{d}])')
+            corr.append(f'[{mode}] rotation of {what} differs from H·D·pad(x) with the diagonal recovered from rot(ones)')
         else:
-          corr.append(f'[{mode}] rotation of {what}: padded length {len(r["y"])} vs model {d}')
+          corr.append(f'[{mode}] rotation of {what}: length {len(r["y"])} vs rot(ones) {len(sg)}')
         ctx.count('probe_items_rot')
       elif op == 'tree':
         spec = it['spec']
@@ -1097,7 +1259,7 @@ class C18(core.Property):
     dtypes = sorted({l[3] if len(l) > 3 else 'float32' for l in leaf_specs})
     # flatten order of the leaves as JAX sees them (dict keys sorted, namedtuple fields in order, None = no leaf)
     order = tu.tree_leaves(spec_build(spec, lambda l: ids[id(l)]))
-    if sorted(order) != list(range(len(leaf_specs))):
+    if sorted(set(order)) != list(range(len(leaf_specs))):
       raise core.InfraError('harness: leaf order of the generated tree could not be determined')
     xqs = [qs[i] for i in order]
     shapes = [list(leaf_specs[i][1]) for i in order]
@@ -1138,8 +1300,6 @@ class C18(core.Property):
           fkey = fkey or 'C18/tree/structure'
           continue
         s0 = sum(float(v) ** 2 for v in xq)
-        if yi.ndim != 1:
-          corr.append(f'leaf {i}: rotated leaf has shape {yi.shape}; the model returns a flat vector')
         if abs(float(np.sum(yi ** 2)) - s0) > 1e-4 * s0 + 1e-6:
           problems.append(f'leaf {i} (shape {tuple(shapes[i])}): norm^2 {s0!r} became {float(np.sum(yi ** 2))!r} after rotation')
           fkey = fkey or 'C18/tree/norm'
@@ -1182,36 +1342,99 @@ class C18(core.Property):
           elif any(abs(float(a) - float(b)) > 1e-5 * sc + 1e-4 * abs(float(b)) + 1e-6 for a, b in zip(zi.reshape(-1), xq)):
             problems.append(f'leaf {i} (shape {tuple(sh)}): inverse does not restore the leaf')
             fkey = fkey or 'C18/tree/inverse-value'
-    # model: per-leaf keys are split(rng, n_leaves)[i] in flatten order, shared by rotation and inverse
+    # ---- different keys give different rotations, leaf-wise (only leaves with >= 64 non-zero entries)
+    big = [i for i, xq in enumerate(xqs) if sum(1 for v in xq if v != 0) >= 64]
+    if big and rl is not None and case.get('key2') is not None and case['key2'] != case['key']:
+      try:
+        rot2, _ = wh.structured_rotation_pytree(tree, jax.random.PRNGKey(case['key2']))
+        rl2 = tu.tree_leaves(rot2)
+        for i in big:
+          if i < len(rl2) and np.array_equal(np.asarray(rl2[i]), rl[i]):
+            problems.append(f'tree keys {case["key"]} and {case["key2"]} give the same rotation of leaf {i} '
+                            f'({len(xqs[i])} entries, >= 64 non-zero)')
+            fkey = fkey or 'C18/tree/keys-collide'
+      except Exception as e:   # pylint: disable=broad-except
+        problems.append(f'structured_rotation_pytree with a second key raised {type(e).__name__}')
+        fkey = fkey or 'C18/tree/rotation-raises-' + type(e).__name__
+      ctx.count('different_key_checks')
+    # ---- model. The sign diagonal of every leaf position is recovered from the implementation (rotation of the
+    # same tree with all-ones leaves and the same key): how leaf keys are derived is not part of the property; that
+    # every leaf is rotated by H·D·pad/sqrt(d) with a ±1 diagonal D that does not depend on the values is.
     if xqs:
-      keys = jax.random.split(key, len(xqs))
-      signss = []
-      for i, xq in enumerate(xqs):
-        d = 1 << (len(xq) - 1).bit_length()
-        sg, ok = self._signs(keys[i], d)
-        if not ok:
-          corr.append('rademacher monitor failed')
-        signss.append(sg)
-      ans = ctx.drv.ask1('c18.rottree', signss, xqs)
-      if ans[0] != 'ok':
-        corr.append(f'model rotTree rejects: {ans}')
-      else:
-        if rl is not None:
-          for i, my in enumerate(ans[1]):
-            d = len(my)
-            try:
-              yi = np.asarray(rl[i])
-            except Exception:   # pylint: disable=broad-except
-              continue
-            sc = sum(abs(float(v)) for v in xqs[i])
-            if yi.shape != (d,):
-              corr.append(f'leaf {i}: rotated length {yi.shape} vs model {d}')
-            elif any(not close(float(a) * math.sqrt(d), b, sc) for a, b in zip(yi, my)):
-              corr.append(f'leaf {i}: rotation differs from the model with key split(rng,{len(xqs)})[{i}]')
-        back = ctx.drv.ask1('c18.invrottree', signss, ans[1], shapes)
-        if back[0] != 'ok' or back[1] != [[len(my) * v for v in xq] for my, xq in zip(ans[1], xqs)]:
-          corr.append('model violates C18_pytree')
-      ctx.count('tree_model_comparisons')
+      signss = None
+      try:
+        ones_typed = [np.ones(l[1], dtype=(l[3] if len(l) > 3 else 'float32')) for l in leaf_specs]
+        ones_tree = spec_build(spec, lambda l: jnp.asarray(ones_typed[ids[id(l)]]))
+        orot, oshp = wh.structured_rotation_pytree(ones_tree, key)
+        ol = [np.array(l, copy=True) for l in tu.tree_leaves(orot)]
+        ol2 = [np.array(l, copy=True) for l in tu.tree_leaves(wh.structured_rotation_pytree(ones_tree, key)[0])]
+        if len(ol) != len(xqs) or any(not np.array_equal(a, b) for a, b in zip(ol, ol2)):
+          problems.append(f'two rotations of the same all-ones tree with the same key {case["key"]} differ')
+          fkey = fkey or 'C18/tree/not-a-function-of-key'
+        else:
+          oinv = tu.tree_leaves(wh.inverse_structured_rotation_pytree(orot, key, oshp))
+          signss = []
+          for i, xq in enumerate(xqs):
+            n_i = len(xq)
+            ni2 = float(np.sum(ol[i].astype(np.float64) ** 2))
+            if abs(ni2 - n_i) > 1e-4 * n_i + 1e-6:
+              problems.append(f'all-ones tree, key {case["key"]}: leaf {i} (shape {tuple(shapes[i])}) has norm^2 {ni2!r} after rotation, not {n_i}')
+              fkey = fkey or 'C18/tree/norm'
+            zi = np.asarray(oinv[i]).reshape(-1)
+            badz = [j for j in range(min(n_i, zi.shape[0])) if abs(float(zi[j]) - 1.0) > 1e-5 * n_i + 1e-4]
+            if zi.shape[0] != n_i or badz:
+              problems.append(f'all-ones tree, key {case["key"]}: leaf {i} (shape {tuple(shapes[i])}) is not restored '
+                              f'(entry {badz[0] if badz else 0})')
+              fkey = fkey or 'C18/tree/inverse-value'
+            sg, why = recover_diag(ol[i], n_i)
+            if sg is None:
+              corr.append(f'leaf {i}: {why}')
+              signss = None
+              break
+            signss.append(sg)
+      except Exception as e:   # pylint: disable=broad-except
+        problems.append(f'rotation / inverse of the all-ones tree {tdef} raised {type(e).__name__}: {str(e)[:100]!r}')
+        fkey = fkey or 'C18/tree/rotation-raises-' + type(e).__name__
+        signss = None
+      if signss is not None:
+        # leaves of one tree are rotated with different diagonals (collision probability 2^-64 and below)
+        seen = {}
+        for i, sg in enumerate(signss):
+          n_i = len(xqs[i])
+          if n_i >= 64:
+            k_ = (n_i, tuple(sg[:n_i]))
+            if k_ in seen:
+              corr.append(f'leaves {seen[k_]} and {i} of one tree are rotated with the same sign diagonal')
+            seen.setdefault(k_, i)
+        limit = MODEL_COST_LIMIT if ctx.tier == 'thorough' else MODEL_COST_LIMIT_QUICK
+        cost = sum(len(sg) * (256 if len(sg) > 128 else len(sg)) for sg in signss)
+        if cost <= limit:
+          ans = ctx.drv.ask1('c18.rottree', signss, xqs)
+          if ans[0] != 'ok':
+            corr.append(f'model rotTree rejects: {ans}')
+          else:
+            if rl is not None:
+              for i, my in enumerate(ans[1]):
+                d = len(my)
+                yi = np.asarray(rl[i]).reshape(-1)
+                sc = sum(abs(float(v)) for v in xqs[i])
+                if yi.shape != (d,):
+                  corr.append(f'leaf {i}: rotated length {yi.shape} vs model {d}')
+                elif any(not close(float(a) * math.sqrt(d), b, sc) for a, b in zip(yi, my)):
+                  corr.append(f'leaf {i}: rotation differs from H·D·pad(x) with the diagonal D recovered from the all-ones tree')
+            back = ctx.drv.ask1('c18.invrottree', signss, ans[1], shapes)
+            if back[0] != 'ok' or back[1] != [[len(my) * v for v in xq] for my, xq in zip(ans[1], xqs)]:
+              corr.append('model violates C18_pytree')
+          ctx.count('tree_model_comparisons')
+        elif rl is not None:
+          for i, (sg, xq) in enumerate(zip(signss, xqs)):
+            d = len(sg)
+            yi = np.asarray(rl[i]).reshape(-1)
+            sc = sum(abs(float(v)) for v in xq)
+            want = fwht_ref_np(np.array([float(v) for v in xq] + [0.0] * (d - len(xq))) * np.array(sg, dtype=np.float64))
+            if yi.shape != (d,) or any(not close(float(a) * math.sqrt(d), b, sc) for a, b in zip(yi, want)):
+              corr.append(f'leaf {i}: rotation differs from H·D·pad(x) (reference butterflies, D from the all-ones tree)')
+          ctx.count('tree_reference_comparisons')
     else:
       # a tree without leaves: nothing to rotate; both results must have the same (leafless) structure
       ctx.count('leafless_trees')
